@@ -471,7 +471,18 @@ func (e *expander) expandExpr(expr *Expr) []*Expr {
 		return []*Expr{ret}
 	case List:
 		out := &Expr{Kind: List, Origin: expr.Origin, ListFlags: expr.ListFlags}
+
+		// Positions inside a list element are numbered on their own (the element becomes the
+		// right-hand side of the list nonterminal), so the nonterminals extracted from the element
+		// must not be mixed up with the ones of the enclosing rule and have to be made known to
+		// the commands of the element.
+		outer := e.createdNts
+		e.createdNts = make(map[int]int)
 		out.Sub = e.expandExpr(expr.Sub[0])
+		for _, rule := range out.Sub {
+			updateArgRefs(rule, e.createdNts)
+		}
+		e.createdNts = outer
 		if len(out.Sub) > 1 {
 			// We support a choice of elements
 			out.Sub = []*Expr{{Kind: Choice, Sub: out.Sub, Origin: expr.Origin}}
